@@ -119,9 +119,10 @@ Definition define_all (m : bool) (e : env) (g : gmap) (p : list var) : env * gma
   fold_left (define m) p (e, g).
 
 (** ** which threading is modelled
-    [as_is]: the code of /repo.  [restored]: the code with repo_patches/c08_handle_restores.diff (the
-    caught set is put back after a handle and for its arms, a function body starts from its own declared
-    raises).  [repaired]: additionally the declared raises of method calls are checked - what C08 demands;
+    [restored]: the code of /repo (since the repair c08_handle_restores: the caught set is put back
+    after a handle and for its arms, a function body starts from its own declared raises).
+    [as_is]: the rule set BEFORE that repair (raises_caught was only ever unioned); kept so that a
+    return to the old behaviour is recognised.  [repaired]: additionally the declared raises of method calls are checked - what C08 demands;
     only used to delimit the known findings. *)
 Record mode := mkMode { m_restore : bool; m_methods : bool }.
 Definition as_is : mode := mkMode false false.
@@ -310,7 +311,7 @@ Definition check_simple (T : tabs) (strict : mode) (e : env) (g : gmap) (s : sim
     | Some k => Rej k
     | None =>
       match p, init with
-      | [], Some _ => Rej KPanic                    (* panic!("cannot have empty identifier") *)
+      | [], Some _ => Rej KOther                    (* "Cannot define a variable with an empty identifier" *)
       | _, _ => Ok (define_all m e g p)
       end
     end
